@@ -173,6 +173,12 @@ def gen_items(ctx):
                   ("<P, Q>", [gf("a", "P"), gf("b", "Q", ("skip",))]),
                   ("<P>", [gf("a", "std::marker::PhantomData<P>")]),
                   ("<P>", [gf("a", "Option<P>", ("optional",))]),
+                  # const parameters with DEFAULTS (a default may not be repeated on the generated impl), before and after type parameters
+                  ("<const N: usize = 4>", [gf("a", "[u8; N]")]),
+                  ("<P, const FLAG: bool = true>", [gf("a", "P")]),
+                  ("<const N: usize, P>", [gf("a", "Vec<P>")]),
+                  ("<P, const N: usize, Q = String>", [gf("a", "P"), gf("b", "Q")]),
+                  ("<'a, const R: usize = 2, const C: usize = R>", [gf("a", "&'a [[u8; C]; R]")]),
                   ("<P: Clone>", [gf("a", "Vec<P>", ("inline",))])]:
         it = {"is_enum": False, "ts": [], "serde": [], "shape": "named", "fields": fs, "variants": [], "_keys": [], "_generics": g}
         items.append((it, "generics"))
